@@ -71,6 +71,19 @@ def func_body(text, name):
     return None
 
 
+def source_guards():
+    """{guard name: present?} for the current source tree"""
+    from extract import src
+    srcs = {"connection.c": src("src/microhttpd/connection.c"), "daemon.c": src("src/microhttpd/daemon.c")}
+    out = {}
+    for name, f, fn, rx in GUARDS:
+        body = func_body(srcs[f], fn)
+        if body is None:
+            raise RuntimeError("function %s not found in %s" % (fn, f))
+        out[name] = re.search(rx, re.sub(r"\s+", " ", body)) is not None
+    return out
+
+
 def gen_susp():
     from extract import c_eval, src, HEADER, GEN
     v = c_eval('#include "MHD_config.h"\n#include "platform.h"\n#include "microhttpd.h"\n#include "internal.h"\n',
@@ -80,20 +93,14 @@ def gen_susp():
                 ("epReadReady", "%d", "(int) MHD_EPOLL_STATE_READ_READY"), ("epWriteReady", "%d", "(int) MHD_EPOLL_STATE_WRITE_READY"),
                 ("epInEready", "%d", "(int) MHD_EPOLL_STATE_IN_EREADY_EDLL"), ("epInSet", "%d", "(int) MHD_EPOLL_STATE_IN_EPOLL_SET"),
                 ("epSuspended", "%d", "(int) MHD_EPOLL_STATE_SUSPENDED")])
-    srcs = {"connection.c": src("src/microhttpd/connection.c"), "daemon.c": src("src/microhttpd/daemon.c")}
     out = [HEADER % "src/microhttpd/{connection.c,daemon.c,internal.h}", "namespace Mhd.Gen.Susp"]
     for k in ("eliRead", "eliWrite", "eliProcess", "eliProcessRead", "eliCleanup",
               "epReadReady", "epWriteReady", "epInEready", "epInSet", "epSuspended"):
         out.append("def %s : Nat := %s" % (k, v[k]))
     out.append("/-! presence of the `suspended` guards in the source (true = the guard is there) -/")
+    sg = source_guards()
     for name, f, fn, rx in GUARDS:
-        body = func_body(srcs[f], fn)
-        if body is None:
-            raise RuntimeError("function %s not found in %s" % (fn, f))
-        flat = re.sub(r"\s+", " ", body)
-        rxf = rx
-        present = re.search(rxf, flat) is not None
-        out.append("/-- %s: %s -/\ndef %s : Bool := %s" % (f, fn, name, "true" if present else "false"))
+        out.append("/-- %s: %s -/\ndef %s : Bool := %s" % (f, fn, name, "true" if sg[name] else "false"))
     out.append("end Mhd.Gen.Susp\n")
     return vlib.write_if_changed(os.path.join(GEN, "Susp.lean"), "\n".join(out))
 
@@ -246,6 +253,10 @@ RESPS = {1: ("cb-unknown", 10, 4), 2: ("cb-known", 10, 4)}
 
 def gen_cases(ctx, tier, boost=False):
     rng = ctx.rng
+    # a content reader that suspends *and* returns data: with a known-size reply the block is sent by the
+    # same MHD_connection_handle_write call unless the source has the guard (finding FC11b); explored for
+    # chunked replies always, for known-size replies only when the source claims to handle it
+    rd_known_ok = source_guards().get("writeReaderGuard", False)
     cases = []
     maxn = 3 if tier == "thorough" else 2
     modes = ["select", "epoll"]     # MHD_USE_POLL exists only with an internal thread (see the random part)
@@ -292,6 +303,8 @@ def gen_cases(ctx, tier, boost=False):
                 extra += [(r0 + 7 * j, i) for j in range(5)]
             takes = list(takes)
             plan = plan_for(combo, lambda p: amap[p], takes, rid=rng.choice([1, 1, 2]))
+            if plan.rs and rng.random() < 0.3 and (plan.rid == 1 or rd_known_ok):
+                plan.rd = 1
             if plan.us and rng.random() < 0.3 and shape != "get" and plan.us[sorted(plan.us)[0]][0] in "din":
                 # back-pressure pattern: the suspending upload call consumes nothing
                 plan.zero_at = {sorted(plan.us)[0]}
@@ -511,7 +524,11 @@ def _sig(s):
 class Spec:
     props_module = "Mhd.Props.C11"
     lean_targets = ["Mhd.Props.C11", "drv_susp"]
-    required_theorems = []
+    required_theorems = ["Mhd.C11.guards_present", "Mhd.C11.lists_consistent", "Mhd.C11.suspended_not_traversed",
+                         "Mhd.C11.no_lost_resume", "Mhd.C11.suspended_entry_points_return", "Mhd.C11.suspended_frozen",
+                         "Mhd.C11.quiet_while_suspended", "Mhd.C11.resume_reenters", "Mhd.C11.race_both_orders",
+                         "Mhd.C11.upload_lossless", "Mhd.C11.reply_lossless", "Mhd.C11.upload_complete",
+                         "Mhd.C11.stutter_equivalence", "Mhd.C11.instant_retry_witness", "Mhd.C11.reader_data_witness"]
     trusted_base = ["Lean 4 kernel", "axioms: propext, Classical.choice, Quot.sound at most (audited per theorem)",
                     "hand-written model lean/Mhd/Model/Susp*.lean tied to daemon.c / connection.c by this run's correspondence",
                     "tools/props/C11.py gen_susp (guard presence table, event-loop-info and epoll-state bits regenerated)",
@@ -536,7 +553,7 @@ class Spec:
         for i in range(0, len(cases), B):
             sub = cases[i:i + B]
             lines = [l for c in sub for l in c.lines()]
-            hout, hrc, herr = vlib.run_lines(self.harness, lines, timeout=900)
+            hout, hrc, herr = vlib.run_lines(self.harness, lines, timeout=420)
             got = split_cases(hout)
             out.update(got)
             if hrc != 0:
